@@ -133,7 +133,7 @@ struct OwnedActor {
 }
 
 /// One client (thread or task) worth of operations. `block` runs an async op to completion.
-async fn client(seed: u64, t: u64, nops: u64, names: Arc<Vec<String>>, hist: Arc<Mutex<Hist>>, trace: Arc<Trace>, sup: ActorCell, yields: bool) {
+async fn client(seed: u64, t: u64, nops: u64, names: Arc<Vec<String>>, hist: Arc<Mutex<Hist>>, trace: Arc<Trace>, sup: ActorCell, yields: bool, tl: Option<ractor::thread_local::ThreadLocalActorSpawner>) {
     let mut p = Prng::new(seed ^ (t + 1).wrapping_mul(0x9E37));
     let mut owned: Vec<OwnedActor> = vec![];
     for op in 0..nops {
@@ -159,7 +159,11 @@ async fn client(seed: u64, t: u64, nops: u64, names: Arc<Vec<String>>, hist: Arc
                 }
                 let spec = Arc::new(spec);
                 let call = stamp();
-                let r = spawn_probe(&spec, None).await;
+                // thread engine: one spawn in four is a thread-local actor contending for the same names
+                let r = match &tl {
+                    Some(sp) if p.chance(1, 4) => spawn_tl_probe(&spec, None, sp.clone()).await,
+                    _ => spawn_probe(&spec, None).await,
+                };
                 let ret = stamp();
                 let mut hh = Holder { name: n, pid: u64::MAX, call, ret, ok: false, already_registered: false, term_req: u64::MAX, wait_ret: u64::MAX, failing_start: failing };
                 match r {
@@ -292,6 +296,11 @@ fn finish(seed: u64, hist: &Hist, desc: Vec<String>, extra: Vec<(String, String)
     }
 }
 
+fn tl_spawner() -> ractor::thread_local::ThreadLocalActorSpawner {
+    static TL: std::sync::OnceLock<ractor::thread_local::ThreadLocalActorSpawner> = std::sync::OnceLock::new();
+    TL.get_or_init(ractor::thread_local::ThreadLocalActorSpawner::new).clone()
+}
+
 pub fn run_one_th(seed: u64, rt: &tokio::runtime::Runtime) -> Outcome {
     let mut p = Prng::new(seed);
     let intensity = *p.pick(&[0u32, 30, 60]);
@@ -307,7 +316,8 @@ pub fn run_one_th(seed: u64, rt: &tokio::runtime::Runtime) -> Outcome {
     let mut clients: Vec<Box<dyn FnOnce() + Send>> = vec![];
     for t in 0..nthreads {
         let (names, hist, trace, supc, h) = (names.clone(), hist.clone(), trace.clone(), sup.get_cell(), rt.handle().clone());
-        clients.push(Box::new(move || h.block_on(client(seed, t, nops, names, hist, trace, supc, false))));
+        let tl = tl_spawner();
+        clients.push(Box::new(move || h.block_on(client(seed, t, nops, names, hist, trace, supc, false, Some(tl)))));
     }
     th::run_clients(clients);
     sup.stop(None);
@@ -340,7 +350,7 @@ pub fn run_one_vt(seed: u64) -> Outcome {
         let (sup, sup_h) = spawn_probe(&sup_spec, None).await.expect("sup");
         let mut tasks = vec![];
         for t in 0..ntasks {
-            tasks.push(vt::spawn_h(&format!("c10-client{t}"), client(seed, t, nops, names.clone(), h2.clone(), trace.clone(), sup.get_cell(), true)));
+            tasks.push(vt::spawn_h(&format!("c10-client{t}"), client(seed, t, nops, names.clone(), h2.clone(), trace.clone(), sup.get_cell(), true, None)));
         }
         for t in tasks {
             let _ = t.await;
